@@ -72,22 +72,24 @@ def compu_xml(cm) -> str:
         return ("<COMPU-METHOD><CATEGORY>TEXTTABLE</CATEGORY><COMPU-INTERNAL-TO-PHYS><COMPU-SCALES>" + sc +
                 "</COMPU-SCALES></COMPU-INTERNAL-TO-PHYS></COMPU-METHOD>")
     if isinstance(cm, D.OtherCompu):
-        sc = ""
-        for s in cm.scales:
-            x = "<COMPU-SCALE>" + _limit("LOWER-LIMIT", s.get("lower")) + _limit("UPPER-LIMIT", s.get("upper"))
-            if s.get("inv") is not None:
-                x += f"<COMPU-INVERSE-VALUE><V>{val_str(s['inv'])}</V></COMPU-INVERSE-VALUE>"
-            if s.get("const") is not None:
-                x += f"<COMPU-CONST><V>{val_str(s['const'])}</V></COMPU-CONST>"
-            if s.get("num") is not None:
-                x += ("<COMPU-RATIONAL-COEFFS><COMPU-NUMERATOR>" + "".join(f"<V>{val_str(v)}</V>" for v in s["num"]) + "</COMPU-NUMERATOR>"
-                      + ("<COMPU-DENOMINATOR>" + "".join(f"<V>{val_str(v)}</V>" for v in s["den"]) + "</COMPU-DENOMINATOR>" if s.get("den") else "")
-                      + "</COMPU-RATIONAL-COEFFS>")
-            sc += x + "</COMPU-SCALE>"
+        def scales_xml(scales):
+            sc = ""
+            for s in scales:
+                x = "<COMPU-SCALE>" + _limit("LOWER-LIMIT", s.get("lower")) + _limit("UPPER-LIMIT", s.get("upper"))
+                if s.get("inv") is not None:
+                    x += f"<COMPU-INVERSE-VALUE><V>{val_str(s['inv'])}</V></COMPU-INVERSE-VALUE>"
+                if s.get("const") is not None:
+                    x += f"<COMPU-CONST><V>{val_str(s['const'])}</V></COMPU-CONST>"
+                if s.get("num") is not None:
+                    x += ("<COMPU-RATIONAL-COEFFS><COMPU-NUMERATOR>" + "".join(f"<V>{val_str(v)}</V>" for v in s["num"]) + "</COMPU-NUMERATOR>"
+                          + ("<COMPU-DENOMINATOR>" + "".join(f"<V>{val_str(v)}</V>" for v in s["den"]) + "</COMPU-DENOMINATOR>" if s.get("den") else "")
+                          + "</COMPU-RATIONAL-COEFFS>")
+                sc += x + "</COMPU-SCALE>"
+            return sc
         inv = ""
-        if cm.scales and cm.scales[0].get("inv_scales"):
-            pass
-        return (f"<COMPU-METHOD><CATEGORY>{cm.category}</CATEGORY><COMPU-INTERNAL-TO-PHYS><COMPU-SCALES>{sc}"
+        if cm.inv_scales:
+            inv = f"<COMPU-PHYS-TO-INTERNAL><COMPU-SCALES>{scales_xml(cm.inv_scales)}</COMPU-SCALES></COMPU-PHYS-TO-INTERNAL>"
+        return (f"<COMPU-METHOD><CATEGORY>{cm.category}</CATEGORY><COMPU-INTERNAL-TO-PHYS><COMPU-SCALES>{scales_xml(cm.scales)}"
                 f"</COMPU-SCALES></COMPU-INTERNAL-TO-PHYS>{inv}</COMPU-METHOD>")
     raise TypeError(cm)
 
